@@ -260,6 +260,13 @@ def build(cfg, world, shared=None):
     from qstrader.trading.backtest import BacktestTradingSession
 
     start, end = ts(cfg['start']), ts(cfg['end'])
+    if cfg.get('tz_mix'):
+        # the same instants with UTC spelled differently (pytz.UTC for one, datetime.timezone.utc for the other)
+        import pytz
+        if cfg['tz_mix'] == 'start':
+            start = start.tz_convert(pytz.UTC)
+        else:
+            end = end.tz_convert(pytz.UTC)
     u = cfg['universe']
     if shared is not None and 'universe' in shared:
         universe = shared['universe']          # the same universe object serves several sessions
@@ -868,6 +875,7 @@ def gen_cfg(rng, alpha_kinds=('fixed',), universe_kinds=('static',), max_days=25
         mk['stale_p'] = rng.choice([0.1, 0.3])
     cfg['market'] = mk
     cfg['loud'] = rng.random() < 0.2          # the library's event printing left at its default (on)
+    cfg['tz_mix'] = rng.choice([None, None, None, 'start', 'end'])
     cfg['default_handler'] = rng.random() < 0.35      # no data handler passed: the session builds its own from the environment
     ukind = rng.choice(universe_kinds)
     if ukind == 'static':
